@@ -416,6 +416,20 @@ pub fn observe(c: &ExecCase, env: &mut ExecEnv) -> String {
         let log = fix_multi(rec.take(), &multis);
         let payload = match &r { Ok(()) => "-".to_string(), Err(p) => hexs(&payload_string(p)) };
         s.push_str(&format!("TN={};PN={};probeN={};", encode(&log), payload, probe(&c.regs, c.map, &world)));
+        // ... and a LATER dispatch in which another system panics alone: the caller gets THAT system's payload
+        // (nothing of the earlier panics may linger)
+        let tops: Vec<u32> = c.regs.iter().filter_map(|r| match r { Reg::Sys { tag, .. } => Some(*tag), _ => None }).collect();
+        if let Some(nf) = tops.iter().max() {
+            rec.faults.lock().unwrap().insert(*nf);
+            let r = catch_unwind(AssertUnwindSafe(|| dispatcher.dispatch(&world)));
+            rec.faults.lock().unwrap().clear();
+            let _ = rec.take();
+            let payload = match &r { Ok(()) => "-".to_string(), Err(p) => hexs(&payload_string(p)) };
+            s.push_str(&format!("nf={};PN2={};", nf, payload));
+            // one clean dispatch so that the phases below start from an ordinary state
+            let _ = catch_unwind(AssertUnwindSafe(|| dispatcher.dispatch(&world)));
+            let _ = rec.take();
+        }
     }
     if let Some(o) = &overlap {
         let t = o.timeouts.lock().unwrap().clone();
@@ -483,7 +497,15 @@ pub fn observe(c: &ExecCase, env: &mut ExecEnv) -> String {
         s.push_str(&format!("dispose={};disposeok={};", encode(&rec.take()), if r.is_ok() { 1 } else { 0 }));
         return s;
     }
-    // --- dispose (C13)
+    // --- dispose (C13): every system is handed to its dispose hook whatever the world holds by then - a third of the
+    // resources is taken away first (odd cases only, so that both situations are covered)
+    if c.calls.len() % 2 == 1 {
+        let mut rs = Vec::new();
+        all_resources(&c.regs, &mut rs);
+        rs.sort(); rs.dedup();
+        for r in rs.iter().filter(|r| crate::rng::mix(0xD15, **r as u64) % 3 == 0) { remove_value(&mut world, c.map.locate(*r)); }
+        for k in 0..8u32 { if crate::rng::mix(0xD15, 1000 + k as u64) % 3 == 0 { remove_value(&mut world, c.map.locate(k)); } }
+    }
     let r = catch_unwind(AssertUnwindSafe(|| if via_trait { shred::RunNow::dispose(Box::new(dispatcher), &mut world) } else { dispatcher.dispose(&mut world) }));
     s.push_str(&format!("dispose={};disposeok={};", encode(&rec.take()), if r.is_ok() { 1 } else { 0 }));
     s
